@@ -133,13 +133,20 @@ def free_cores(db):
     for k, r in db.t['instances'].rows.items():
         fr = db.t['instances_free_cores_mcpu'].rows[k]
         used = 0
+        placed = 0
         for ak, a in db.t['attempts'].rows.items():
-            on = b_and(a.present, b_not(a.vals['instance_name'].n), i_eq(a.vals['instance_name'].v, k[0]), a.vals['end_time'].n)
+            here = b_and(a.present, b_not(a.vals['instance_name'].n), i_eq(a.vals['instance_name'].v, k[0]))
+            on = b_and(here, a.vals['end_time'].n)
             used = used + ite(on, js[ak[1]].cores, 0)
+            placed = placed + ite(here, js[ak[1]].cores, 0)
         live = b_or(i_eq(r.vals['state'].v, S.code('pending')), i_eq(r.vals['state'].v, S.code('active')))
         inactive = i_eq(r.vals['state'].v, S.code('inactive'))
+        free, cores = fr.vals['free_cores_mcpu'].v, r.vals['cores_mcpu'].v
+        # relaxed (finding class pending-instance-ended-attempt-keeps-cores): free cores may be UNDER-reported by cores
+        # of attempts that already ended on this instance, never over-reported
         out.append((f'{S.name(k[0])}: live => free = cores - cores of unended attempts',
-                    imp(b_and(r.present, live), oracle.eq(fr.vals['free_cores_mcpu'].v, r.vals['cores_mcpu'].v - used))))
+                    imp(b_and(r.present, live), oracle.eq(free, cores - used)),
+                    imp(b_and(r.present, live), b_and(free <= cores - used, free >= cores - placed))))
         out.append((f'{S.name(k[0])}: inactive => all cores free',
                     imp(b_and(r.present, inactive), oracle.eq(fr.vals['free_cores_mcpu'].v, r.vals['cores_mcpu'].v))))
     return out
